@@ -16,7 +16,15 @@ RULE = ("sp.hist cases (build, then insert/overwrite/scale/transpose steps; afte
         "followed by transpose + insert, (b) every permutation of triplet lists with <= 4 entries (<= 5 thorough), (c) random histories of "
         "3..10 steps on shapes <= 8x8 built from triplets or raw arrays, with forced empty first/last rows and columns and the empty "
         "matrix, (d) tie-only streams: duplicate positions, out-of-range triplets, malformed raw arrays, out-of-range get/insert "
-        "(sp.probe) on every shape <= 3x3, f64 / Complex<f64> histories; distinct = distinct executor line; "
+        "(sp.probe) on every shape <= 3x3, f64 / Complex<f64> histories; "
+        "round four (structured classes, every class of every dimension in every run, pairings rotate with the seed; one new case in four carries a model term in the quick tier): "
+        "(e) op-pairs: every ordered pair of 14 operation classes (insert fresh / first cell / last cell / a stored zero, overwrite with another / the same / a zero value, "
+        "scale by 0, 1, -1, 2, 1/2, random, transpose) + a third step on 14 small structured matrices, (f) structured-patterns: 25 named structures (empty, single entry in every corner, "
+        "diagonal, full, full but one, full / empty first / last row / column, checker, triangular, border, ...) on the shape classes 1x1, 1xn, nx1, wide, tall, square, 8x8 with the value classes "
+        "random / all ones / all equal / opposite signs / stored zeros / 0,1,-1,2,1/2 / huge+tiny and six construction forms, (g) fill-by-insert: matrices built by insertion only until full, then overwritten, "
+        "(h) large-full: 8x8 / 8x7 / 7x8 / 8x1 / 1x8 full or with one hole (up to 64 stored entries), (i) history-long: 12..24 steps, (j) structured-f64 / structured-cplx with signed zeros, 2^+-200, "
+        "+-i, axis-aligned and unit-modulus entries and scale factors; the reference-model oracle now also judges the f64 / Complex<f64> histories and the in-range probes; "
+        "distinct = distinct executor line; "
         "non-trivial = at least two stored entries on a shape with r,c >= 2, or a case that must panic")
 TRUSTED = ["Coq 8.16.1 kernel + vm_compute", "Rust executor /verif/harness (Rat = i128 rationals)",
            "python driver: generators, dictionary-of-keys reference, wf predicate, stream comparators",
@@ -27,7 +35,7 @@ ASSUMPTIONS = ["Rust semantics of Vec/usize as modelled (checked indexing, debug
                "the sampled cases are where model and code were compared; the theorems are about the model"]
 UNPROVED = ["behaviour on DUPLICATE positions is outside the property's quantifier but specified and proved (block dups of Props/C06.v: get_first_duplicate, to_dense_last_duplicate, views_with_duplicates, views_agree_iff, from_triplets_duplicates, insert_with_duplicates, transpose_is_stable_sort, history_with_duplicates: get returns the first stored duplicate, to_dense the last, the products their sum, for every well-formed storage); behaviour on MALFORMED raw arrays is tied (model = implementation), not specified",
             "from_vecs is an echo of its arguments (from_vecs_wf: well-formed arrays are returned as they are); what it does with malformed arrays is tied, not specified",
-            "the f64 / Complex<f64> instances are tied bitwise; nothing about C06 depends on arithmetic laws"]
+            "the f64 / Complex<f64> instances are tied bitwise and searched by the reference model (values up to the rounding of one product per scale step); nothing about C06 depends on arithmetic laws"]
 
 MANIFEST = dict(
     text=("Theorems about the Gallina model of src/sparse.rs (six public CSC fields, every guard and index checked), for all shapes, "
@@ -40,8 +48,10 @@ MANIFEST = dict(
           "The model is run against the implementation "
           "(Rat vs Qc, exact; all public fields and all four views after every step) on every pattern of every shape <= 3x3 in several "
           "triplet orders, every permutation of small triplet lists, random histories on shapes <= 8x8 including empty rows/columns and "
-          "the empty matrix, raw-array construction, and tie-only malformed/duplicate/out-of-range streams; a dictionary-of-keys "
-          "reference plus the wf predicate on the public fields searches for a failing input."),
+          "the empty matrix, raw-array construction, and tie-only malformed/duplicate/out-of-range streams, and on structured families: every ordered pair of 14 operation classes "
+          "(insertions at special cells, overwrites with the same / a zero value, scale by 0, 1, -1, 2, 1/2, transpose), 25 named patterns on every shape class up to 8x8 with special value classes, "
+          "matrices built by insertion only, full 8x8 matrices, long histories; a dictionary-of-keys "
+          "reference plus the wf predicate on the public fields searches for a failing input in the rational, f64 and Complex<f64> instances (histories and in-range probes)."),
     note=("Which theorems are discharged is reported by the check (theorems k/k) and listed in coq/Props/C06.v; behaviour on duplicate "
           "positions is specified and proved although outside the quantifier, on malformed raw arrays tied but not specified; Vec::sort_by_key is modelled as the stable sort (trusted)."),
     technique="Coq proof over an abstract arithmetic + model/implementation differential execution (vm_compute vs Rust executor) + reference-model search",
@@ -219,9 +229,115 @@ def generate(rng, tier):
         cells = rand_cells(g, r, c, 1, 2)
         b = ('T', r, c, triplets_of(g, cells, elt)) if h % 3 else vecs_of(g, r, c, cells, elt)
         cases.append(mk(elt, b, rand_ops(g, r, c, cells, g.range(2, 6), elt), "history-" + elt))
+    cases += special_families(rng.fork("special-values"), thorough)
     # spread the expensive cases evenly over the Coq shards (the engine cuts the list into consecutive runs of 250)
     k = max(1, (len(cases) + 249) // 250)
     cases = [c for r in range(k) for c in cases[r::k]]
+    return cases
+
+# ---------------------------------------------------------------------------------------------------------------------
+# Round four: structured classes (findings/special-values-specA/C06-table.md).  Every class of every dimension is drawn
+# in every run; the pairings rotate with the seed.  In the quick tier one new case in four carries a model term (which
+# quarter rotates with the seed), in the thorough tier all; every case is judged by the reference-model oracle.
+# ---------------------------------------------------------------------------------------------------------------------
+def mk2(elt, b, ops, family, with_term=True):
+    c = mk(elt, b, ops, family)
+    if not with_term: c.term = None
+    return c
+
+def ops_by_class(g, elt, classes, r, c, cells, vals):
+    occ = dict(zip(cells, vals)); rr, cc = r, c
+    ops = []
+    for cls in classes:
+        o = op_of(g, elt, cls, rr, cc, occ, lambda rng, e: val(rng, e))
+        if o is None: continue
+        ops.append(o); occ, rr, cc = track(occ, rr, cc, o)
+    return ops
+
+def special_families(g0, thorough):
+    cases = []
+    seedrot = g0.below(4)
+    count = [0]
+    def termed():
+        count[0] += 1
+        return thorough or (count[0] % 4 == seedrot)
+    rv = lambda rng, e: val(rng, e)
+    # (e) every ordered pair of operation classes (fresh / first-cell / last-cell insertion, overwrite with another, the same or
+    #     a zero value, insertion of a stored zero, scale by 0, 1, -1, 2, 1/2, random, transpose) on small structured matrices
+    g = g0.fork("op-pairs")
+    bases = [("empty", 2, 3), ("single-last", 3, 2), ("full", 2, 2), ("first-col-empty", 3, 3), ("last-col-empty", 2, 4),
+             ("diagonal", 3, 3), ("last-row-full", 4, 2), ("first-col-full", 3, 1), ("full", 1, 3), ("empty", 1, 1), ("checker", 4, 4),
+             ("single-first", 1, 1), ("last-col-full", 3, 4), ("first-row-empty", 4, 3)]
+    k = g.below(1000)
+    for o1 in OP_CLASSES:
+        for o2 in OP_CLASSES:
+            for rep in range(3 if thorough else 1):
+                k += 1
+                pat, r, c = bases[k % len(bases)]
+                cells = pattern(pat, r, c)
+                vals = fill_values(g, 'rat', FILLS[k % len(FILLS)], len(cells), rv)
+                b = build_of(g, BUILD_FORMS[k % len(BUILD_FORMS)], r, c, cells, vals)
+                third = OP_CLASSES[k % len(OP_CLASSES)]
+                cases.append(mk2('rat', b, ops_by_class(g, 'rat', (o1, o2, third), r, c, cells, vals), "op-pairs", termed()))
+    # (f) every named structure on every shape class (<= 8 x 8); value class and construction form cycle; two steps by class
+    g = g0.fork("structured")
+    k = g.below(1000)
+    for rep in range(3 if thorough else 1):
+        for pat in PATTERNS:
+            for sc in SHAPE_CLASSES:
+                k += 1
+                r, c = shape_of(g, sc, 8)
+                cells = pattern(pat, r, c)
+                vals = fill_values(g, 'rat', FILLS[k % len(FILLS)], len(cells), rv)
+                b = build_of(g, BUILD_FORMS[(k // 3) % len(BUILD_FORMS)], r, c, cells, vals)
+                cl = (OP_CLASSES[(k // 2) % len(OP_CLASSES)], OP_CLASSES[(k // 5) % len(OP_CLASSES)])
+                cases.append(mk2('rat', b, ops_by_class(g, 'rat', cl, r, c, cells, vals), "structured-patterns", termed()))
+    # (g) matrices built by insertion only: from the empty matrix every cell in random order until full, then every cell
+    #     overwritten, a transposition in the middle
+    g = g0.fork("fill-by-insert")
+    for (r, c) in ([(2, 3), (3, 2), (1, 5), (5, 1), (3, 3), (2, 2), (1, 1), (4, 2)] + ([(4, 4), (2, 6), (6, 2), (3, 5)] if thorough else [])):
+        order = g.shuffle([(i, j) for j in range(c) for i in range(r)])
+        ops = [('insert', i, j, val(g)) for (i, j) in order]
+        ops.insert(len(ops) // 2, ('transpose',)); 
+        ops = ops[:len(ops) // 2 + 1] + [('insert', j, i, v) for (_, i, j, v) in ops[len(ops) // 2 + 1:]]
+        ops += [('insert', j, i, val(g)) for (i, j) in g.shuffle(order)[: (len(order) if thorough else 3)]]
+        form = g.choice(["T", "V"])
+        b = ('T', r, c, []) if form == "T" else ('V', r, c, [], [], [0] * (c + 1))
+        cases.append(mk2('rat', b, ops, "fill-by-insert", termed()))
+    # (h) the largest shapes, full or with a single hole (more stored entries than the random histories reach)
+    g = g0.fork("large")
+    k = g.below(1000)
+    for (r, c, pat) in [(8, 8, "full"), (8, 8, "full-but-last"), (8, 7, "full-but-first"), (7, 8, "full"), (8, 1, "full"), (1, 8, "full"),
+                        (8, 8, "checker"), (8, 8, "border"), (7, 8, "full-but-last"), (6, 8, "full"), (8, 6, "full-but-first"), (8, 8, "full-but-first")]:
+        k += 1
+        cells = pattern(pat, r, c)
+        vals = fill_values(g, 'rat', FILLS[k % len(FILLS)], len(cells), rv)
+        b = build_of(g, BUILD_FORMS[k % len(BUILD_FORMS)], r, c, cells, vals)
+        cl = ("insert-last-cell", "overwrite", "transpose", "insert-first-cell", "scale--1")
+        cases.append(mk2('rat', b, ops_by_class(g, 'rat', cl, r, c, cells, vals), "large-full", thorough and termed()))
+    # (i) long histories (12..24 steps)
+    g = g0.fork("long")
+    for h in range(40 if thorough else 10):
+        r, c = g.range(1, 5), g.range(1, 5)
+        cells = rand_cells(g, r, c, 1, 3)
+        b = build_of(g, g.choice(BUILD_FORMS), r, c, cells, [val(g) for _ in cells])
+        cases.append(mk2('rat', b, rand_ops(g, r, c, cells, g.range(12, 24)), "history-long", termed()))
+    # (j) the float instances: signed zeros, +-1, 2^+-200, axis-aligned and unit-modulus complex entries, scale factors of
+    #     the same classes; judged by the same reference (values compared up to the rounding of one product per scale step)
+    g = g0.fork("floats")
+    k = g.below(1000)
+    for h in range(240 if thorough else 80):
+        k += 1
+        elt = 'f64' if h % 2 == 0 else 'cplx'
+        r, c = shape_of(g, SHAPE_CLASSES[k % len(SHAPE_CLASSES)], 6)
+        if h % 3 == 0: cells = pattern(PATTERNS[(k // 2) % len(PATTERNS)], r, c)
+        else: cells = rand_cells(g, r, c, 1, 2)
+        vals = fill_values(g, elt, FILLS[(k // 2) % len(FILLS)], len(cells), rv)
+        b = build_of(g, BUILD_FORMS[k % len(BUILD_FORMS)], r, c, cells, vals)
+        cl = [g.choice(OP_CLASSES) for _ in range(g.range(1, 4))]
+        ops = ops_by_class(g, elt, cl, r, c, cells, vals)
+        if h % 5 == 0: ops.append(('scale', g.choice(special_scalars(elt))))
+        cases.append(mk2(elt, b, ops, "structured-" + elt, termed()))
     return cases
 
 def case_from_json(j):
@@ -235,9 +351,27 @@ def case_from_json(j):
 COUNT = {"oracle_in_claim": 0, "oracle_states_checked": 0, "tie_only": 0}
 
 def oracle(case, items):
-    if case.elt != 'rat' or case.meta.get("kind") != "hist":
-        COUNT["tie_only"] += 1
-        return None
+    elt = case.elt
+    if case.meta.get("kind") == "probe":
+        b = build_from_json(elt, case.meta["build"])
+        v = Fraction(case.meta["v"]) if elt == 'rat' else (complex(case.meta["v"]) if elt == 'cplx' else float(case.meta["v"]))
+        i, j = case.meta["i"], case.meta["j"]
+        ref = dok_of_build(b)
+        if ref is None or i >= ref.r or j >= ref.c:
+            COUNT["tie_only"] += 1          # rejection of out-of-range arguments is C20's claim
+            return None
+        COUNT["oracle_in_claim"] += 1
+        COUNT["oracle_states_checked"] += 1
+        return oracle_probe(elt, b, i, j, v, items)
+    if elt != 'rat':
+        b = build_from_json(elt, case.meta["build"])
+        ops = ops_from_json(elt, case.meta["ops"])
+        if dok_of_build(b) is None:
+            COUNT["tie_only"] += 1
+            return None
+        COUNT["oracle_in_claim"] += 1
+        COUNT["oracle_states_checked"] += 1 + len(ops)
+        return oracle_hist_e(elt, b, ops, items)
     b = build_from_json('rat', case.meta["build"])
     ops = ops_from_json('rat', case.meta["ops"])
     if dok_of_build(b) is None:
